@@ -105,6 +105,9 @@ def access_tasks():
                 handles_closed(interp, tag, S, o0)
                 if not inside:
                     ctx.oblige(f"{tag}.object_is_outside_a_context_again", S.tdf.fields.get("_inside_context") is False, kind="C08")
+                    if oc[0] == "return" and len(getattr(interp, "opened", [])) > o0:
+                        # the implicit context was a context: a pending allow_write() does not survive it
+                        ctx.oblige(f"{tag}.implicit_context_uses_up_allow_write", S.tdf.fields.get("_mode") == "rb", kind="C08")
             out.append(Task(f"C08.reader.{rname}[{modename}]", qual, ["C08"], run, kind="ct"))
 
     def prop_get(name):
